@@ -254,6 +254,11 @@ def convert_legacy_task(
                     all_keys=all_keys,
                 ),
             )
+        elif not isinstance(task, list):
+            # Only lists (and dicts) are traversed, as in get_dependencies,
+            # subs and cull: a tuple that is neither a task nor a key, a set
+            # and a frozenset are literals
+            return task
         else:
             parsed_args = tuple(convert_legacy_task(None, t, all_keys) for t in task)
             if any(isinstance(a, GraphNode) for a in parsed_args):
